@@ -111,3 +111,33 @@ func CallerPC() (pc uintptr, file string, line int) {
 	f, _ := runtime.CallersFrames(pcs[:]).Next()
 	return pcs[0], lastTwo(f.File), f.Line
 }
+
+// DeriveWithDecoys derives along chain like Derive; in addition, after the real child of step i exists,
+// the steps decoys[i] are applied one by one to the SAME parent (siblings of the real child that are
+// never logged through). Isolation means they cannot influence what the real chain writes.
+func DeriveWithDecoys(l *logger.Logger, chain []Step, decoys [][]Step) *logger.Logger {
+	for i, s := range chain {
+		parent := l
+		l = Derive(parent, []Step{s})
+		if i < len(decoys) {
+			for _, d := range decoys[i] {
+				_ = Derive(parent, []Step{d})
+			}
+		}
+	}
+	return l
+}
+
+// DeriveHandlerWithDecoys is the Handler-level counterpart.
+func DeriveHandlerWithDecoys(h logger.Handler, chain []Step, decoys [][]Step) logger.Handler {
+	for i, s := range chain {
+		parent := h
+		h = DeriveHandler(parent, []Step{s})
+		if i < len(decoys) {
+			for _, d := range decoys[i] {
+				_ = DeriveHandler(parent, []Step{d})
+			}
+		}
+	}
+	return h
+}
